@@ -191,6 +191,20 @@ pub(crate) fn stub_get_memo<'db, C: Configuration>(_this: &IngredientImpl<C>, _z
         }
     }
 }
+/// As `stub_get_memo`, with the stored memo kept as a *pointer* (`CUR_MEMO_P`): a reference made from an integer
+/// is an unresolved object for CBMC, and slices read through it (`tracked_struct_ids()`) come back with symbolic
+/// lengths.
+pub(crate) static mut CUR_MEMO_P: *const () = std::ptr::null();
+pub(crate) fn stub_get_memo_p<'db, C: Configuration>(_this: &IngredientImpl<C>, _zalsa: &'db Zalsa, _id: Id, _mi: MemoIngredientIndex) -> Option<&'db Memo<C>> {
+    // SAFETY: single-threaded harness; CUR_MEMO_P is null or a leaked `Memo<C>`
+    unsafe {
+        if CUR_MEMO_P.is_null() {
+            None
+        } else {
+            Some(&*(CUR_MEMO_P as *const Memo<C>))
+        }
+    }
+}
 pub(crate) fn stub_execute<'db, C: Configuration>(
     _this: &'db IngredientImpl<C>,
     _db: &'db C::DbView,
@@ -526,6 +540,72 @@ fn g_spec_1_specify_and_record() {
     assert!(diffed == if stored { &old.header as *const MemoHeader as usize } else { 0 });
     assert!(claims == 1 && releases == 1);
     vcover!();
+    std::mem::forget(frame);
+    std::mem::forget(w);
+}
+
+//@ob id=G-SPEC-2 kind=C props=C10,C01 timeout=1800 fn=IngredientImpl::specify_and_record,ZalsaLocal::active_query_with_cycle_heads,ZalsaLocal::is_tracked_struct_of_active_query,ZalsaLocal::add_output flags=stubs,noreplay
+//@ pre: a creator query that is not part of a cycle is executing (real query stack) with any stamp (durability, changed_at <= current) and owns the struct `key` (real identity map); the key has a final memo from an **earlier revision** (any value or evicted, any durability; when the value is unchanged its changed_at is not later than what the creator has read - salsa panics on that in debug builds as a query bug); the creator calls specify(key, v)
+//@ post: exactly one memo is stored; it holds v, is verified in the **current revision** (so a request later in this revision returns it without running the body), has origin Assigned(creator), is not more durable than the creator and not marked as changed earlier than what the creator had read (unless backdated to the old memo's changed_at); it is final (no cycle)
+//@ post: changed_at is the old memo's **iff** the value is unchanged and the new result is not less durable (backdating, C03), the creator's otherwise; the old memo goes to diff_outputs; the specified function is recorded as an output edge of the creator; the claim is released
+#[cfg(kani)]
+#[kani::proof]
+#[kani::unwind(5)]
+#[kani::stub(crate::sync::max_parallelism, crate::verif_support::one_core)]
+#[kani::stub(crate::function::sync::SyncTable::try_claim, crate::function::sync::verif::stub_try_claim)]
+#[kani::stub(crate::function::sync::ClaimGuard::drop_impl, crate::function::sync::ClaimGuard::verif_release)]
+#[kani::stub(crate::function::IngredientImpl::get_memo_from_table_for, stub_get_memo_p)]
+#[kani::stub(crate::function::IngredientImpl::insert_memo, stub_insert_memo)]
+#[kani::stub(crate::function::memo::MemoHeader::diff_outputs, crate::function::memo::MemoHeader::verif_diff_outputs)]
+#[kani::stub(crate::zalsa_local::ZalsaLocal::active_query_with_cycle_heads, crate::zalsa_local::ZalsaLocal::verif_active_query_no_cycle)]
+fn g_spec_2_specify_over_an_older_memo() {
+    let w = world();
+    let cur = w.cur;
+    let (z, l) = w.db.zalsas();
+    let creator = vk::key(5, 3);
+    let frame = l.push_query(creator);
+    // the creator read something: any stamp
+    let (cd, cc) = (vk::any_durability(), vk::any_revision());
+    vk::assume(cc <= cur);
+    crate::zalsa_local::verif::set_top_stamp(l, cd, cc);
+    let (_, stamp) = l.active_query().unwrap();
+    // the creator created the struct `key` in this execution
+    let entity = <GKey as crate::tracked_struct::TrackedStructInDb>::database_key_index(z, w.id);
+    l.store_tracked_struct_id(crate::tracked_struct::verif::identity(9, 77, 0), w.id);
+    // an optional memo from an earlier revision
+    let stored: bool = true;
+    let (va, ca) = (vk::any_revision(), vk::any_revision());
+    vk::assume(ca <= va && va < cur);
+    let od = vk::any_durability();
+    let old_value: Option<u32> = if vk::any() { Some(vk::any()) } else { None };
+    let old = memo(old_value, va, od, ca);
+    // SAFETY: single-threaded harness
+    unsafe { CUR_MEMO_P = if stored { old as *const Memo<CGen> as *const () } else { std::ptr::null() } };
+    let v: u32 = vk::any();
+    vk::assume(!(old_value == Some(v) && cd >= od) || ca <= cc);
+    w.ing.specify_and_record(&w.db, w.id, v);
+    // SAFETY: single-threaded harness
+    let (ins, diffed, claims, releases) = unsafe { (INS, DIFFED, crate::function::sync::verif::CLAIMS, crate::function::sync::verif::RELEASES) };
+    assert!(ins.calls == 1);
+    assert!(ins.value == Some(v));
+    assert!(ins.verified_at == cur.as_usize());
+    assert!(ins.origin_kind == 2 && ins.assigned_by == Some(creator));
+    // sound directions: never more durable than the creator, never "changed" earlier than what the creator read
+    assert!(ins.durability <= stamp.durability.index() as u8);
+    let backdated = stored && old_value == Some(v) && cd >= od;
+    assert!(ins.durability == cd.index() as u8);
+    assert!(ins.changed_at == if backdated { ca.as_usize() } else { cc.as_usize() });
+    assert!(crate::zalsa_local::verif::top_frame_has_output(l, DatabaseKeyIndex::new(IngredientIndex::new(2), w.id)));
+    if !backdated {
+        assert!(ins.changed_at >= stamp.changed_at.as_usize() && ins.changed_at <= cur.as_usize());
+    } else {
+        assert!(ins.changed_at >= ca.as_usize() && ins.changed_at <= cur.as_usize());
+    }
+    assert!(!ins.provisional);
+    assert!(diffed == if stored { &old.header as *const MemoHeader as usize } else { 0 });
+    assert!(claims == 1 && releases == 1);
+    vcover!(backdated, "backdating reachable");
+    vcover!(!backdated && old_value == Some(v), "equal value, less durable: not backdated");
     std::mem::forget(frame);
     std::mem::forget(w);
 }
